@@ -135,6 +135,7 @@ type Fault struct {
 // SYN-ACK on the simulated wire.
 type Listener struct {
 	Addr       string `json:"addr"` // 127.0.0.x
+	Port       int    `json:"port,omitempty"` // fixed listening port (every worker has its own network namespace); 0: kernel-chosen
 	Closed     bool   `json:"closed,omitempty"`
 	Permitted  bool   `json:"permitted"`
 	Timestamps bool   `json:"timestamps,omitempty"`
